@@ -438,3 +438,51 @@ def st_wide(be):
 
 FACETS.append(Facet('np/wide-polynomials', f_wide, strategy=lambda t: st_wide('np'), examples={'quick': 150, 'thorough': 6000}, shards={'quick': 1, 'thorough': 4}))
 FACETS.append(Facet('torch/wide-polynomials', f_wide, strategy=lambda t: st_wide('torch'), examples={'quick': 40, 'thorough': 1500}, backend='torch'))
+
+
+# ---- "Clifford rotations and maps act linearly on polynomials": unreduced polynomials (repeated strings with different phases and coefficients)
+def f_linear(case):
+    be, N = case['be'], case['N']
+    Bk = B.backend(be)
+    L, K = ref.parse_list([t[0] for t in case['terms']])
+    cs = [gen.cplx(t[1]) for t in case['terms']]
+    # repeat some strings with other phases / coefficients (what an unreduced product or sum looks like)
+    for j, (src, dk, c) in enumerate(case['repeats']):
+        L = np.concatenate([L, L[src % len(L)][None, :]]); K = np.concatenate([K, [(K[src % len(K)] + dk) % 4]]); cs = cs + [gen.cplx(c)]
+    order = np.argsort([(h * 7 + case['salt']) % max(1, len(K)) for h in range(len(K))], kind='stable')
+    L, K, cs = L[order], K[order], [cs[i] for i in order]
+    P = Bk.poly(L, K, cs)
+    before = ref.dense_poly(L, K, cs)
+    q = case['qubits']
+    full = len(q) == N and not case['usemask']
+    if case['how'] == 'rotate':
+        gl, gk = ref.parse(case['gen'])
+        P.rotate_by(Bk.pauli(gl, gk)) if full else P.rotate_by(Bk.pauli(gl, gk), Bk.mask_arg(q, N))
+        big = ref.rotation_clifford(gl, gk).embed(sorted(q), N)
+    else:
+        small = ref.RefClifford.from_rows(case['rows'])
+        P.transform_by(Bk.cmap(small)) if full else P.transform_by(Bk.cmap(small), Bk.mask_arg(q, N))
+        big = small.embed(sorted(q), N)
+    EL, EK = big.apply(L, K)
+    want = ref.dense_poly(EL, EK, cs)
+    got = obj_dense(be, P, N)
+    check(np.allclose(got, want, atol=_tol(be)), '%s of the unreduced polynomial %s: the result is not the term-wise image (max err %g)' % (
+        case['how'], [(ref.show(l, k), c) for l, k, c in zip(L, K, cs)], np.abs(got - want).max()), 'linear')
+    l2, k2 = Bk.read_list(P)
+    check(l2.shape[0] == len(K), 'number of terms changed from %d to %d' % (len(K), l2.shape[0]), 'linear-terms')
+    check(np.allclose(Bk.num(P.cs), cs, atol=_tol(be)), 'coefficients changed by %s' % case['how'], 'linear-coef')
+    rep = len({tuple(x) for x in L.tolist()}) < len(K)
+    return {'nt': rep and not np.allclose(before, want), 'labels': [case['how'], 'N=%d' % N, 'repeated' if rep else 'distinct']}
+
+
+def st_linear(be, hiN):
+    def inner(N):
+        return st.integers(1, N).flatmap(lambda n: st.fixed_dictionaries(
+            {'be': st.just(be), 'N': st.just(N), 'terms': gen.st_poly(N, 1, 4), 'repeats': st.lists(st.tuples(st.integers(0, 3), st.integers(0, 3), gen.st_coef(nonzero=True)).map(list), max_size=3),
+             'salt': st.integers(0, 5), 'how': st.sampled_from(['rotate', 'transform']), 'qubits': gen.st_subset(N, n), 'usemask': st.booleans(),
+             'gen': gen.st_herm(n, nonidentity=True), 'rows': gen.st_clifford_rows(n)}))
+    return st.integers(1, hiN).flatmap(inner)
+
+
+FACETS.append(Facet('np/maps-on-unreduced-polynomials', f_linear, strategy=lambda t: st_linear('np', 4), examples={'quick': 1000, 'thorough': 40000}, shards={'quick': 2, 'thorough': 8}))
+FACETS.append(Facet('torch/maps-on-unreduced-polynomials', f_linear, strategy=lambda t: st_linear('torch', 3), examples={'quick': 400, 'thorough': 15000}, shards={'quick': 1, 'thorough': 4}, backend='torch'))
